@@ -34,9 +34,20 @@ ToDigits(k) == IF k < 10 THEN <<Digits[k + 1]>> ELSE Append(ToDigits(k \div 10),
 (* which slot a textual name denotes: DISTINCT NAMES DENOTE DISTINCT SLOTS,  *)
 (* so a digit string that is not the canonical spelling of its value         *)
 (* ("007", "+7") is a name of its own, not an alias of the number            *)
+(* the u32 encoding (numeric: 4n, fresh style: 4n+1, the counter moves to 4n+5) holds only     *)
+(* numbers up to these bounds; a digit string beyond them is an ordinary textual name            *)
+(* (compared as digit strings: TLC integers are 32 bit)                                          *)
+MaxNumDigits == <<"1", "0", "7", "3", "7", "4", "1", "8", "2", "3">>      \* 2^30 - 1
+MaxFDigits   == <<"1", "0", "7", "3", "7", "4", "1", "8", "2", "2">>      \* 2^30 - 2
+RECURSIVE LexLeq(_, _)
+LexLeq(a, b) == IF a = << >> THEN TRUE
+                ELSE IF DigVal(a[1]) # DigVal(b[1]) THEN DigVal(a[1]) < DigVal(b[1])
+                ELSE LexLeq(Tail(a), Tail(b))
+Fits(d, bound) == Len(d) < Len(bound) \/ (Len(d) = Len(bound) /\ LexLeq(d, bound))
+
 Classify(s) ==
-  IF CanonDigits(s) THEN <<"num", s>>
-  ELSE IF Len(s) > 1 /\ s[1] = "f" /\ CanonDigits(Tail(s)) THEN <<"f", Tail(s)>>
+  IF CanonDigits(s) /\ Fits(s, MaxNumDigits) THEN <<"num", s>>
+  ELSE IF Len(s) > 1 /\ s[1] = "f" /\ CanonDigits(Tail(s)) /\ Fits(Tail(s), MaxFDigits) THEN <<"f", Tail(s)>>
   ELSE <<"txt", s>>
 
 (* the name printed for a slot (without the leading dollar sign)             *)
